@@ -93,6 +93,7 @@ class BaseCtx:
         self.counters = {}
         self.obs = []
         self.rng_log = []
+        self.ended_by_exception = False
         self.own_exceptions = False  # only C01 treats exceptions of the code under test as failures
 
     def observe(self, key, v):
@@ -120,6 +121,7 @@ class BaseCtx:
         except ReplayMismatch:
             raise
         except Exception as ex:  # noqa — BaseException (engine control flow) passes through
+            self.ended_by_exception = True
             if self.own_exceptions:
                 self._exception(label, ex)
             else:
